@@ -37,6 +37,9 @@ def run(ctx):
     lib_kind.py_lints(ctx, py, mods=("tables",), only=ps)
     lib_kind.dict_atomic(ctx, P)
     lib_kind.takeset_atomic(ctx, P)
+    from . import lib_kind3
+    lib_kind3.collection_every_table(ctx, P)
+    lib_kind3.module_owner_refs(ctx, P)
     lib_kind.py_searchsorted(ctx, py, [("trees", "TreeSequence.site")])
     lib_module.name_agreement(ctx, P, classes=lib_module.TABLE_CLASSES + ("TableCollection",), floor=150)
     lib_py.facade_names(ctx, py, P, classes=tuple(("tables", c) for c in lib_py.FACADES["tables"]), floor=60)
